@@ -881,6 +881,21 @@ func (g *gen2) genOrder() {
 		}
 		refs := g.r.Chance(35)
 		le, re := g.leaf(l, refs), g.leaf(r, refs)
+		// operands as the evaluator itself produces them: int32 out of | and ~, uint32 out of >>>
+		wrap := func(e string) string {
+			switch g.r.Intn(12) {
+			case 0:
+				return "b bor " + e + " v f:0000000000000000"
+			case 1:
+				return "b ushr " + e + " v f:0000000000000000"
+			case 2:
+				return "u bnot " + e
+			}
+			return e
+		}
+		if op != "in" && op != "inst" {
+			le, re = wrap(le), wrap(re)
+		}
 		if g.r.Chance(85) {
 			le = "q L " + le
 		}
